@@ -95,6 +95,26 @@ CHECKS["C03"] = (
     "(OnlyCHNOPS for average mode, RowSelfConsistent for PSI-MOD) hold on the raw table row.",
     "Assumes TLC and the projection (counts quantised to 1e-8, masses to 1e-9). Elements outside the independent "
     "table are not judged.", "DESIGN.md §6 C03")
+CHECKS["C04"] = (
+    "TLA+ reference spec of the ion set, numbering, labels and applicable losses (Fragment.tla; span counts "
+    "model-checked in MC_Series) + TLC trace validation of recorded fragment()/Fragmenter calls with the real "
+    "mass()/mz() of every returned ion (Trace_Fragment!FragmentFails)",
+    "TLC computes the exact set of (type, span, charge, isotope, applicable loss) keys the call must return and "
+    "requires each exactly once, checks each ion's sequence text against the written slice of the annotation, its "
+    "number and label, its mass and m/z against the recorded real mass()/mz() of that ion, and that the five other "
+    "return types and the Fragmenter object are the same list.",
+    "Assumes TLC and the projection; losses are single-class regexes the spec can interpret; ion masses are compared "
+    "with the library's own calculator (C02/C05 tie that calculator to first principles).", "DESIGN.md §6 C04")
+CHECKS["C05"] = (
+    "TLA+ series chemistry (Fragment.tla offsets from the independent Nist table; consistency model-checked in "
+    "MC_Series) + TLC trace validation of recorded fragment()/mass() values (Trace_Fragment!SeriesFails)",
+    "TLC model-checks that the reference offsets are consistent (complementary b/y pairs, shift law) and then checks, "
+    "on recorded fragment masses of the real code for all 16 ion types and charges 1..4, the relations b+y = M+2p, "
+    "a = b-CO, c = b+NH3, x = y+CO-H2, z = y-NH3, immonium, charge-state protons, internal-series offsets, and the "
+    "absolute b / y / internal-by / immonium / neutral masses from first principles (so a modification shifts exactly "
+    "the ions containing it).",
+    "Assumes TLC and the projection. The link between the {ax,az,bx,bz} internal group and the by ion is not judged "
+    "(see DESIGN.md limits).", "DESIGN.md §6 C05")
 NOT_YET = "check not built yet in this round (planned with the TLA+ technique, see DESIGN.md §6)"
 
 
